@@ -60,25 +60,36 @@ def canon(edges, face_edge, npf):
     return (sorted(es), fe, list(npf))
 
 
-def impl_builders(table):
+def layout(t, kind):
+    """memory layouts of the same table: C-contiguous, Fortran-contiguous, strided view"""
+    if kind == 1:
+        return np.asfortranarray(t)
+    if kind == 2:
+        big = np.full((t.shape[0] * 2, t.shape[1] + 1), 7, dtype=t.dtype)
+        big[::2, :-1] = t
+        return big[::2, :-1]
+    return np.ascontiguousarray(t)
+
+
+def impl_builders(table, lay=0):
     from uxarray.grid.connectivity import (_build_edge_node_connectivity, _build_face_edge_connectivity,
                                            _build_n_nodes_per_face)
-    t = np.array(table, dtype=np.intp)
+    t = layout(np.array(table, dtype=np.intp), lay)
     nf, m = t.shape
-    e, inv, mask = _build_edge_node_connectivity(t.copy(), nf, m)
+    e, inv, mask = _build_edge_node_connectivity(t, nf, m)
     fe = _build_face_edge_connectivity(inv, nf, m)
-    npf = _build_n_nodes_per_face(t.copy(), nf, m)
+    npf = _build_n_nodes_per_face(t, nf, m)
     return e.tolist(), np.asarray(fe).tolist(), np.asarray(npf).tolist(), int(e.shape[0])
 
 
-def impl_grid(table, lon=None, lat=None, order=0):
+def impl_grid(table, lon=None, lat=None, order=0, lay=0):
     import uxarray as ux
-    t = np.array(table, dtype=np.intp)
+    t = layout(np.array(table, dtype=np.intp), lay)
     n = int(max(x for r in table for x in r if x != FILL)) + 1
     if lon is None:
         lon = np.linspace(-170, 170, n)
         lat = np.linspace(-80, 80, n)
-    g = ux.Grid.from_topology(np.array(lon, dtype=float), np.array(lat, dtype=float), t.copy(), fill_value=FILL)
+    g = ux.Grid.from_topology(np.array(lon, dtype=float), np.array(lat, dtype=float), t, fill_value=FILL)
     # order of first access is part of the quantifier ("any history"): three orders
     if order == 0:
         e = g.edge_node_connectivity.values
@@ -145,10 +156,10 @@ def run_case_impl(ck, c, idx):
     t = c["table"]
     res = {}
     try:
-        e, fe, npf, ne = impl_builders(t)
+        e, fe, npf, ne = impl_builders(t, (idx // 3) % 3)
         bad = spec_check(t, e, fe, npf, ne)
         if bad:
-            ck.fail(bad, {"table": t, "level": "builders"}, {"level": "builders"},
+            ck.fail(bad, {"table": t, "level": "builders", "layout": (idx // 3) % 3}, {"level": "builders"},
                     detail=json.dumps({"edges": e, "face_edge": fe, "npf": npf}))
         res["builders"] = canon(e, fe, npf)
         res["raw"] = (e, fe, npf)
@@ -156,10 +167,10 @@ def run_case_impl(ck, c, idx):
         ck.fail("raises", {"table": t, "level": "builders"}, {"level": "builders"}, detail=repr(ex))
     try:
         ll = c.get("lonlat")
-        e, fe, npf, ne, g = impl_grid(t, ll[0] if ll else None, ll[1] if ll else None, order=idx % 3)
+        e, fe, npf, ne, g = impl_grid(t, ll[0] if ll else None, ll[1] if ll else None, order=idx % 3, lay=(idx // 3) % 3)
         bad = spec_check(t, e, fe, npf, ne)
         if bad:
-            ck.fail(bad, {"table": t, "level": "grid", "order": idx % 3}, {"level": "grid"},
+            ck.fail(bad, {"table": t, "level": "grid", "order": idx % 3, "layout": (idx // 3) % 3}, {"level": "grid"},
                     detail=json.dumps({"edges": e, "face_edge": fe, "npf": npf}))
         res["grid"] = canon(e, fe, npf)
         if c.get("closed") and c.get("n_node") is not None:
